@@ -95,6 +95,21 @@ func healthyAfter(rng *rand.Rand, d time.Duration, hcTimeout time.Duration) []Ph
 	return []Phase{bad, {Kind: "ok"}}
 }
 
+// deadlineRace scripts a target so that its first 2xx probe answer comes with
+// probe number k (about k intervals after the deploy began), returns a deploy
+// timeout that expires 20 ms later, and arms a task hold that keeps the
+// goroutine completing that probe descheduled, somewhere between the answer
+// and the rotation update, until the timeout has fired: "the timer expires
+// between two particular statements of another goroutine".
+func deadlineRace(rng *rand.Rand, sc *Scenario, ts *TargetSpec, interval time.Duration) time.Duration {
+	k := 1 + rng.Intn(2)
+	ts.AbsBase = false
+	ts.Phases = []Phase{{Until: time.Duration(k-1)*interval + interval/2, Kind: "status", Status: 503}, {Kind: "ok"}}
+	sc.TaskHolds = append(sc.TaskHolds, TaskHold{Task: "hc:" + ts.Addr, Hold: Hold{
+		At: pick(rng, "hc.report", "health.completed", "health.updated", "lb.stateChanged"), For: "target.waitTimeout", N: 1, Max: 200 * time.Millisecond}})
+	return time.Duration(k)*interval + 20*time.Millisecond
+}
+
 // trigger points at which client arrivals are aligned with command steps.
 var deployTriggers = []string{
 	"deploy.probing", "lb.waitDone", "deploy.healthy", "deploy.beforeUpdate", "deploy.beforeInstall", "router.install",
